@@ -95,6 +95,8 @@ typedef enum {
 /*-------------------------------------------------------------------------*/
 
 static Byte     PrefixCnt;
+static Byte     R2000Prefix[4];
+static Byte     R2000PrefixCnt;
 static Byte     AdrPart, OpSize;
 static Byte     AdrVals[4];
 static ShortInt AdrMode;
@@ -2588,7 +2590,7 @@ static void DecodeJR(Word Code) {
 
         AdrLInt = EvalAbsAdrExpression(&ArgStr[ArgCnt], &EvalResult);
         if (EvalResult.OK) {
-            AdrLInt -= EProgCounter() + 2;
+            AdrLInt -= EProgCounter() + 2 + R2000PrefixCnt;
             if ((AdrLInt <= 0x7fl) && (AdrLInt >= -0x80l)) {
                 CodeLen     = 2;
                 BAsmCode[0] = Condition << 3;
@@ -2696,7 +2698,7 @@ static void DecodeDJNZ(Word Code) {
 
         AdrLInt = EvalAbsAdrExpression(&ArgStr[1], &EvalResult);
         if (EvalResult.OK) {
-            AdrLInt -= EProgCounter() + 2;
+            AdrLInt -= EProgCounter() + 2 + R2000PrefixCnt;
             if ((AdrLInt <= 0x7fl) & (AdrLInt >= -0x80l)) {
                 CodeLen     = 2;
                 BAsmCode[0] = 0x10;
@@ -3172,9 +3174,12 @@ static void StripPref(char const* Arg, Byte Opcode) {
     /* do we have a prefix ? */
 
     if (!strcmp(OpPart.str.p_str, Arg)) {
-        /* add to code */
+        /* remember: the prefix is put in front of the instruction's code
+           once that has been generated.  It must not occupy BAsmCode[]
+           and PrefixCnt now, since the instruction decoders take a non-zero
+           PrefixCnt for an IX/IY prefix. */
 
-        BAsmCode[PrefixCnt++] = Opcode;
+        R2000Prefix[R2000PrefixCnt++] = Opcode;
         StrCompReset(&OpPart);
 
         /* cut true opcode out of next argument */
@@ -3221,7 +3226,9 @@ static void StripPref(char const* Arg, Byte Opcode) {
         /* if no further argument, that's all folks */
 
         else {
-            CodeLen = PrefixCnt;
+            memcpy(BAsmCode, R2000Prefix, R2000PrefixCnt);
+            CodeLen        = R2000PrefixCnt;
+            R2000PrefixCnt = 0;
         }
     }
 }
@@ -3236,6 +3243,7 @@ static void MakeCode_Z80(void) {
     /*--------------------------------------------------------------------------*/
     /* Rabbit 2000 prefixes */
 
+    R2000PrefixCnt = 0;
     if (MomCPU == CPUR2000) {
         StripPref("ALTD", 0x76);
     }
@@ -3259,6 +3267,14 @@ static void MakeCode_Z80(void) {
 
     if (!LookupInstTable(InstTable, OpPart.str.p_str)) {
         WrStrErrorPos(ErrNum_UnknownInstruction, &OpPart);
+    }
+
+    /* Rabbit 2000 prefix in front of the generated instruction */
+
+    if ((R2000PrefixCnt > 0) && (CodeLen > 0)) {
+        memmove(BAsmCode + R2000PrefixCnt, BAsmCode, CodeLen);
+        memcpy(BAsmCode, R2000Prefix, R2000PrefixCnt);
+        CodeLen += R2000PrefixCnt;
     }
 }
 
